@@ -43,6 +43,16 @@ def cases(draw, tier):
                 body.append(sl())
             elif r < 6:
                 body.append({'op': 'instant'})
+            elif r < 8 and depth < 2 and am and draw(st.integers(0, 2)) == 0:
+                # tasks of a scope opened inside the block borrow parts of the share (closed forcefully when the block is
+                # left abnormally: their parts are on the way back while the share itself is handed back)
+                full = {f: am.get(f, 0) for f in fields}
+                hn[0] += 1
+                kids_ = [{'name': 'n%d_%d' % (hn[0], j), 'steps': ([sl()] if draw(st.booleans()) else []) + [block(full, {'from': h}, depth + 1)]}
+                         for j in range(draw(st.integers(1, 2)))]
+                if draw(st.integers(0, 3)) == 0:
+                    kids_[-1]['volatile'] = True
+                body.append({'op': 'scope', 'name': 'N%d' % hn[0], 'catch': True, 'children': kids_, 'body': [sl()]})
             elif r < 8 and depth < 2 and am:
                 full = {f: am.get(f, 0) for f in fields}
                 body.append(block(full, {'from': h}, depth + 1))
@@ -68,7 +78,7 @@ def cases(draw, tier):
             steps.append(b)
             if draw(st.integers(0, 2)) == 0:
                 steps.append(sl())
-            if draw(st.integers(0, 4 if w > 1 else 1)) == 0:
+            if draw(st.integers(0, 4 if w > 1 else 1)) == 0 and "'scope'" not in str(inner):
                 # the same borrow object is entered a second time (after the first use ended - normally, or interrupted
                 # by the until() around it)
                 inner['obj'] = inner['as']
@@ -234,6 +244,8 @@ def judge(out, case, it, oc, exc, obs, ctx):
                 if b['src'] != h or b['acquiring'][0] > seq or 'unavailable' in b:
                     continue
                 over = b['end_seq'] is not None and b['end_seq'] <= seq
+                if over and b['linger_until'] is not None and now is not None and now <= b['linger_until']:
+                    over = False        # (left abnormally: the give-back to the share runs within this time step, as above)
                 if not over:
                     nin = [x + y for x, y in zip(nin, b['amt'])]
                 if 'held' in b and b['held'][0] <= seq and not ('releasing' in b and b['releasing'][0] <= seq):
@@ -314,6 +326,9 @@ class C12(Check):
             plan = [[{'k': k, 'target': t, 'token': [1]}] for t in case['targets'] for k in range(N + 1)][:1500]
         else:
             plan = [[dict(f, k=f['k'] % (N + 1))] for f in case['faults']]
+            # two stop signals for one borrower within a few activations (second cancel, also in the very same turn)
+            plan += [[dict(f, k=f['k'] % (N + 1)), dict(f, k=(f['k'] % (N + 1)) + j, token=[2])]
+                     for j, f in enumerate(case['faults'][:3])]
         if 'until' in str(case['prog']['roots'][0]):
             # the flag that until(flag) blocks wait for fires at activation boundaries (the interrupted activity goes on,
             # e.g. to use the same borrow object again)
